@@ -875,6 +875,11 @@ impl Sim {
             return;
         }
         self.stats.bump("fault.disk_error_state_checked");
+        let shadow = self.committed(r).clone();
+        self.check_lookups(r, &format!("{ctx} (after injected disk error)"), &shadow);
+        if !self.found.is_empty() {
+            return;
+        }
         if before.is_some() {
             let after = self.snapshot(r);
             if after != *before {
@@ -882,8 +887,6 @@ impl Sim {
                 return;
             }
         }
-        let shadow = self.committed(r).clone();
-        self.check_lookups(r, &format!("{ctx} (after injected disk error)"), &shadow);
     }
 
     /// A hard I/O error was injected during the last call: whatever else the replica's process
